@@ -10,20 +10,106 @@ Variable H : Z -> list Z -> list Z.
 Variable oc : bool.
 Variable v : ver.
 
-(** [t] is a (fully loaded) tree over the leaves [ls]: canonical MMR layout of the stored
-    array, root link denoting the bagged peaks. *)
-Definition repr (t : tree) (ls : list data) : Prop :=
-  exists R, inv H v t R /\ rleaves (trs R) = ls.
-
-(** leaves of one chain within the overflow guard, array length within u32 *)
-Definition good (ls : list data) : Prop :=
-  (exists b h0, seg_ok b h0 ls) /\ mmr_size (length ls) <= u32_max.
-
 Lemma canon_size R : R <> [] -> perfs R -> incr 0 (hts R) ->
   total (trs R) = mmr_size (length (rleaves (trs R))).
 Proof.
   intros NE P I. destruct (mmr_trees_unique R NE P I) as [MH _].
   unfold mmr_size. rewrite MH. apply total_sizes. exact P.
+Qed.
+
+Lemma merged_links_seq : forall R c j,
+  merged_links c j R = map (fun i => Stored (c + Z.of_nat i)) (seq 0 (length (merged_links 0 j R))).
+Proof.
+  induction R as [|[h P] rest IH]; intros c j; cbn [merged_links]; [reflexivity|].
+  destruct (Nat.eqb h j); [|reflexivity]. cbn [length seq map]. f_equal; [f_equal; lia|].
+  rewrite (IH (c + 1)), (IH (0 + 1)), !map_length, !seq_length, <- seq_shift, map_map.
+  apply map_ext. intros i. f_equal. lia.
+Qed.
+
+(** * Generic in the store predicate *)
+Section G.
+Variable sat : list (Z * entry) -> Z -> bt -> Prop.
+Hypothesis SO : sat_ok H v sat.
+
+(** [t] holds the leaves [ls]: the peaks are where the canonical MMR layout puts them (as far as
+    [sat] demands), the root link denotes the bagged peaks. *)
+Definition reprG (t : tree) (ls : list data) : Prop :=
+  exists R, inv H v sat t R /\ rleaves (trs R) = ls.
+(** ... and the right spine of the last peak is loaded (what a truncation reads) *)
+Definition reprS (t : tree) (ls : list data) : Prop :=
+  exists R, inv H v sat t R /\ last_spine H v sat t R /\ rleaves (trs R) = ls.
+
+Lemma reprS_reprG t ls : reprS t ls -> reprG t ls.
+Proof. intros (R & A & _ & B). exists R. auto. Qed.
+
+Theorem repr_rootG t ls b h0 :
+  reprG t ls -> seg_ok b h0 ls ->
+  exists en, root_node t = Ok en /\ mmr_root H v ls = Some (e_data en) /\
+             t_count t = mmr_size (length ls).
+Proof. intros (R & IV & <-) G. eapply inv_root_spec; eauto. Qed.
+
+Theorem append_rootG t ls d b h0 :
+  reprG t ls -> seg_ok b h0 (ls ++ [d]) -> mmr_size (length (ls ++ [d])) <= u32_max ->
+  exists t',
+    append_leaf H oc v t d
+    = Ok (t', map (fun i => Stored (t_count t + Z.of_nat i))
+                  (seq 0 (Z.to_nat (mmr_size (length (ls ++ [d])) - mmr_size (length ls))))) /\
+    reprS t' (ls ++ [d]).
+Proof.
+  intros (R & IV & <-) G B.
+  destruct (merge_R_props 0 (BL d) R (inv_perf _ _ _ _ _ IV) (inv_incr _ _ _ _ _ IV) Logic.I) as (NE' & P' & I').
+  pose proof (canon_size _ NE' P' I') as CS. rewrite merge_R_leaves in CS. cbn [bt_leaves] in CS.
+  destruct (append_inv H oc v sat SO t R d b h0 IV G ltac:(rewrite CS; exact B)) as (t' & AP & IV' & LS').
+  exists t'. split.
+  - rewrite AP. f_equal. f_equal.
+    pose proof (merge_R_total 0 (BL d) R) as MT. cbn [bt_size] in MT.
+    pose proof (canon_size _ (inv_ne _ _ _ _ _ IV) (inv_perf _ _ _ _ _ IV) (inv_incr _ _ _ _ _ IV)) as CS0.
+    rewrite <- CS, <- CS0, MT.
+    replace (total (trs R) + 1 + Z.of_nat (length (merged_links 0 0 R)) - total (trs R))
+      with (Z.of_nat (S (length (merged_links 0 0 R)))) by lia.
+    rewrite Nat2Z.id. cbn [seq map]. f_equal; [f_equal; lia|].
+    rewrite (merged_links_seq R (t_count t + 1) 0), <- seq_shift, map_map.
+    apply map_ext. intros i. f_equal. lia.
+  - exists (merge_R 0 (BL d) R). split; [exact IV'|]. split; [exact LS'|]. apply merge_R_leaves.
+Qed.
+
+Theorem truncate_rootG t ls d b h0 :
+  reprS t (ls ++ [d]) -> ls <> [] -> seg_ok b h0 (ls ++ [d]) -> mmr_size (length (ls ++ [d])) <= u32_max ->
+  exists t',
+    truncate_leaf H oc v t = Ok (t', mmr_size (length (ls ++ [d])) - mmr_size (length ls)) /\
+    reprG t' ls.
+Proof.
+  intros (R & IV & LS & E) NE G B.
+  pose proof (canon_size _ (inv_ne _ _ _ _ _ IV) (inv_perf _ _ _ _ _ IV) (inv_incr _ _ _ _ _ IV)) as CS0.
+  rewrite E in CS0.
+  destruct (truncate_inv H oc v sat SO t R b h0 IV LS) as (t' & R' & d' & TR & IV' & EL).
+  - rewrite E. exact G.
+  - rewrite (inv_count _ _ _ _ _ IV), CS0. exact B.
+  - rewrite E, app_length. cbn [length]. destruct ls; [congruence|cbn [length]; lia].
+  - rewrite E in EL. apply app_inj_tail in EL. destruct EL as [EL <-].
+    exists t'. split.
+    + rewrite TR. f_equal. f_equal.
+      pose proof (canon_size _ (inv_ne _ _ _ _ _ IV') (inv_perf _ _ _ _ _ IV') (inv_incr _ _ _ _ _ IV')) as CS1.
+      rewrite (inv_count _ _ _ _ _ IV), (inv_count _ _ _ _ _ IV'), CS0, CS1, <- EL. reflexivity.
+    + exists R'. split; [exact IV'|symmetry; exact EL].
+Qed.
+
+End G.
+
+(** * The fully loaded tree *)
+Definition repr := reprG (stored_at H v).
+
+(** leaves of one chain within the overflow guard, array length within u32 *)
+Definition good (ls : list data) : Prop :=
+  (exists b h0, seg_ok b h0 ls) /\ mmr_size (length ls) <= u32_max.
+
+
+Lemma full_spine t ls : repr t ls -> reprS (stored_at H v) t ls.
+Proof.
+  intros (R & IV & E). exists R. split; [exact IV|]. split; [|exact E].
+  unfold last_spine. pose proof (inv_peaks _ _ _ _ _ IV) as PK. pose proof (inv_ne _ _ _ _ _ IV) as NE.
+  destruct R as [|[h T] rest]; [congruence|]. cbn [trs map snd rpeaks_at] in *. destruct PK as [S _].
+  apply stored_spine. exact S.
 Qed.
 
 Theorem new_leaf_repr d :
@@ -38,16 +124,7 @@ Theorem repr_root t ls b h0 :
   repr t ls -> seg_ok b h0 ls ->
   exists en, root_node t = Ok en /\ mmr_root H v ls = Some (e_data en) /\
              t_count t = mmr_size (length ls).
-Proof. intros (R & IV & <-) G. eapply inv_root_spec; eauto. Qed.
-
-Lemma merged_links_seq : forall R c j,
-  merged_links c j R = map (fun i => Stored (c + Z.of_nat i)) (seq 0 (length (merged_links 0 j R))).
-Proof.
-  induction R as [|[h P] rest IH]; intros c j; cbn [merged_links]; [reflexivity|].
-  destruct (Nat.eqb h j); [|reflexivity]. cbn [length seq map]. f_equal; [f_equal; lia|].
-  rewrite (IH (c + 1)), (IH (0 + 1)), !map_length, !seq_length, <- seq_shift, map_map.
-  apply map_ext. intros i. f_equal. lia.
-Qed.
+Proof. apply repr_rootG. apply stored_ok. Qed.
 
 Theorem append_root t ls d b h0 :
   repr t ls -> seg_ok b h0 (ls ++ [d]) -> mmr_size (length (ls ++ [d])) <= u32_max ->
@@ -57,21 +134,8 @@ Theorem append_root t ls d b h0 :
                   (seq 0 (Z.to_nat (mmr_size (length (ls ++ [d])) - mmr_size (length ls))))) /\
     repr t' (ls ++ [d]).
 Proof.
-  intros (R & IV & <-) G B.
-  destruct (merge_R_props 0 (BL d) R (inv_perf _ _ _ _ IV) (inv_incr _ _ _ _ IV) Logic.I) as (NE' & P' & I').
-  pose proof (canon_size _ NE' P' I') as CS. rewrite merge_R_leaves in CS. cbn [bt_leaves] in CS.
-  destruct (append_inv H oc v t R d b h0 IV G ltac:(rewrite CS; exact B)) as (t' & AP & IV').
-  exists t'. split.
-  - rewrite AP. f_equal. f_equal.
-    pose proof (merge_R_total 0 (BL d) R) as MT. cbn [bt_size] in MT.
-    pose proof (canon_size _ (inv_ne _ _ _ _ IV) (inv_perf _ _ _ _ IV) (inv_incr _ _ _ _ IV)) as CS0.
-    rewrite <- CS, <- CS0, MT.
-    replace (total (trs R) + 1 + Z.of_nat (length (merged_links 0 0 R)) - total (trs R))
-      with (Z.of_nat (S (length (merged_links 0 0 R)))) by lia.
-    rewrite Nat2Z.id. cbn [seq map]. f_equal; [f_equal; lia|].
-    rewrite (merged_links_seq R (t_count t + 1) 0), <- seq_shift, map_map.
-    apply map_ext. intros i. f_equal. lia.
-  - exists (merge_R 0 (BL d) R). split; [exact IV'|]. apply merge_R_leaves.
+  intros RP G B. destruct (append_rootG _ (stored_ok H v) t ls d b h0 RP G B) as (t' & A & R').
+  exists t'. split; [exact A|]. apply reprS_reprG. exact R'.
 Qed.
 
 Theorem truncate_root t ls d b h0 :
@@ -79,21 +143,7 @@ Theorem truncate_root t ls d b h0 :
   exists t',
     truncate_leaf H oc v t = Ok (t', mmr_size (length (ls ++ [d])) - mmr_size (length ls)) /\
     repr t' ls.
-Proof.
-  intros (R & IV & E) NE G B.
-  pose proof (canon_size _ (inv_ne _ _ _ _ IV) (inv_perf _ _ _ _ IV) (inv_incr _ _ _ _ IV)) as CS0.
-  rewrite E in CS0.
-  destruct (truncate_inv H oc v t R b h0 IV) as (t' & R' & d' & TR & IV' & EL).
-  - rewrite E. exact G.
-  - rewrite (inv_count _ _ _ _ IV), CS0. exact B.
-  - rewrite E, app_length. cbn [length]. destruct ls; [congruence|cbn [length]; lia].
-  - rewrite E in EL. apply app_inj_tail in EL. destruct EL as [EL <-].
-    exists t'. split.
-    + rewrite TR. f_equal. f_equal.
-      pose proof (canon_size _ (inv_ne _ _ _ _ IV') (inv_perf _ _ _ _ IV') (inv_incr _ _ _ _ IV')) as CS1.
-      rewrite (inv_count _ _ _ _ IV), (inv_count _ _ _ _ IV'), CS0, CS1, <- EL. reflexivity.
-    + exists R'. split; [exact IV'|symmetry; exact EL].
-Qed.
+Proof. intros RP. apply (truncate_rootG _ (stored_ok H v)). apply full_spine. exact RP. Qed.
 
 (** Any sequence of appends and truncations. *)
 Fixpoint run (t : tree) (ops : list op) : tres tree :=
@@ -155,9 +205,9 @@ Proof.
   assert (t_count t2 <= t_count t1).
   { rewrite C2, C1. rewrite <- C0.
     destruct RP as (R & IV & E). pose proof (merge_R_total 0 (BL d) R) as MT.
-    destruct (merge_R_props 0 (BL d) R (inv_perf _ _ _ _ IV) (inv_incr _ _ _ _ IV) Logic.I) as (NE' & P' & I').
+    destruct (merge_R_props 0 (BL d) R (inv_perf _ _ _ _ _ IV) (inv_incr _ _ _ _ _ IV) Logic.I) as (NE' & P' & I').
     pose proof (canon_size _ NE' P' I') as CS. rewrite merge_R_leaves, E in CS. cbn [bt_leaves] in CS.
-    rewrite <- CS, MT, (inv_count _ _ _ _ IV). cbn [bt_size]. lia. }
+    rewrite <- CS, MT, (inv_count _ _ _ _ _ IV). cbn [bt_size]. lia. }
   rewrite Z2Nat.id by lia. reflexivity.
 Qed.
 
